@@ -80,6 +80,31 @@ type vsrvC15 struct {
 	fullOpens int
 	clientTx  int // request body bytes sent (kept far below the server's receive windows)
 	posts     map[uint32]bool
+	manyNames int // 0 undecided, 1 this session's valid requests carry many distinct field names, 2 they do not
+	nameCtr   int
+}
+
+// extraNames returns 0 or 6-12 fields with names this connection has not seen before. The
+// server keeps per-connection state keyed by field name (its canonical-name cache, HPACK
+// tables); a session that has used a few dozen distinct names exercises the paths taken
+// once that state is full, which is when a later connection-specific field must still be
+// recognised.
+func (x *vsrvC15) extraNames() []vsrvField {
+	if x.manyNames == 0 {
+		x.manyNames = 1 + x.rng.IntN(2)
+	}
+	if x.manyNames != 1 {
+		return nil
+	}
+	var out []vsrvField
+	for i, n := 0, 6+x.rng.IntN(7); i < n; i++ {
+		x.nameCtr++
+		out = append(out, vsrvField{fmt.Sprintf("x-verif-field-%04d", x.nameCtr), "v"})
+	}
+	x.s.mu.Lock()
+	x.s.ev["distinct_request_field_names_sent"] += int64(len(out))
+	x.s.mu.Unlock()
+	return out
 }
 
 func (x *vsrvC15) note(f string, a ...any) {
@@ -215,7 +240,7 @@ func (x *vsrvC15) openGet(tryOver bool) {
 		x.s.ev["over_limit_opens"]++
 		x.s.mu.Unlock()
 	}
-	x.s.cliHeaders(id, true, vsrvGetFields(fmt.Sprintf("/s/%d", id)))
+	x.s.cliHeaders(id, true, vsrvGetFields(fmt.Sprintf("/s/%d", id), x.extraNames()...))
 	x.note("open s=%d over_limit=%v", id, over)
 	if over {
 		x.s.settle() // Q2: nothing else happens before the server has dealt with the HEADERS
@@ -608,6 +633,7 @@ func TestVerif_C15(t *testing.T) {
 	r.Require("over_limit_refused", 50)
 	r.Require("early_resets", 200)
 	r.Require("malformed_requests_sent", 500)
+	r.Require("distinct_request_field_names_sent", 5000)
 	r.Require("malformed_rejected_by_rst_stream", 100)
 	r.Require("malformed_rejected_by_4xx", 50)
 	r.Require("server_ping_acks", 300)
